@@ -373,13 +373,14 @@ def _parser_deco(written, optional, nd, kw):
 def _make_body(b, i, nd, tag, modname):
     kind = nd["kind"]
     outcome = nd["outcome"]
-    exc = make_exc(outcome, "%s-%d" % (tag, i))
+    xtag = b.spec.get("tag", "")      # exception texts must not depend on the per-build uid
+    exc = make_exc(outcome, "%s-%d" % (xtag, i))
     if exc is not None:
         b.excs[i] = exc
         b.injected[id(exc)] = (i, None)
     elem_out = nd.get("elem_outcomes") or []
     for k, eo in enumerate(elem_out):
-        e = make_exc(eo, "%s-%d-%d" % (tag, i, k))
+        e = make_exc(eo, "%s-%d-%d" % (xtag, i, k))
         if e is not None:
             b.elem_excs[(i, k)] = e
             b.injected[id(e)] = (i, k)
